@@ -111,7 +111,7 @@ func (c *collector) add(res *Result) {
 			}
 		}
 		switch {
-		case strings.HasPrefix(info.class, "mut:") || strings.HasPrefix(info.class, "embed:"):
+		case strings.HasPrefix(info.class, "mut:") || strings.HasPrefix(info.class, "embed:") || strings.HasPrefix(info.class, "typed:"):
 			for _, m := range info.slots {
 				c.ctx.Ev.Distinct("explore|" + cc + "|" + r.Outcome + "|" + m.String())
 			}
